@@ -248,4 +248,19 @@ PROPS = {
         level_text="Randomised exploration of catalogue histories against a catalogue model, racing catalogue changes under controlled schedules, and the diff function against its set definition.",
         level_note="Trusted: the catalogue model; gate scheduler.",
     ),
+    "C11": dict(
+        pkg="c11", level="exploration",
+        tests=[T("TestC11", Q(4, timeout=300, shards=4, shrinktime="5s"), Q(40, timeout=1500, shards=16, shrinktime="20s")),
+               T("TestC11RYW", Q(25, timeout=300, shards=2, shrinktime="20s"), Q(120, timeout=1500, shards=8, shrinktime="60s"))],
+        rule="TestC11: timed scenarios on the real storage.IndexNotificationQueue (its own Run goroutine, hard-coded 1 s sweep): 2-12 events spread over 3.3 s on two tables - add(revision 0-6, optionally cancelled 1-2500 ms later), "
+             "notify(revision 0-6), len - followed by one more sweep and a responsiveness probe; each rapid case runs 150 scenarios concurrently (evaluations = scenarios). Every waiter reads its channel once, like ForwardingKVServer. Oracle: exactly one "
+             "answer; success only if a notification >= its revision for its table had started before; error only after its context ended; never a second answer; an unanswered waiter while Len(table)==0 is lost (timing-free); a waiter cancelled >2.5 s ago "
+             "or notified (after its Add returned) >1 s ago must be answered; Add/Notify/Len must return within 8 s - if not, two goroutine dumps 1 s apart must show the same event-loop goroutine parked in 'chan send' (wedge witness), otherwise inconclusive. "
+             "Non-trivial iff live and cancelled waiters coexist or a revision-0 waiter exists. TestC11RYW: real leader + follower engines, real ForwardingKVServer over gRPC, worker polls driven by a harness goroutine at a generated period; generated put / delete range / "
+             "txn (incl. empty executed branch) sent to the follower API, each followed immediately by a serializable read on the follower that must observe it (non-trivial iff >=1 txn with an empty executed branch or >=3 forwarded writes).",
+        assumptions=["real time is unavoidable (the sweep interval is hard-coded): every time-based judgement is one-sided and generous, a slow machine can only turn a violation into 'inconclusive'"],
+        technique="property-based testing over timed event schedules with a history oracle; end-to-end read-your-writes on real engines",
+        level_text="Randomised exploration of waiter/notification/cancellation schedules across >=4 sweeps; thousands of scenarios per quick run.",
+        level_note="Trusted: wall-clock ordering of harness-side stamps within the stated margins.",
+    ),
 }
